@@ -852,6 +852,56 @@ def _clock_run(v, loop, cnt, n):
     return events, env.get(cnt)
 
 
+def _stamp_leaves(v, lp):
+    """what the integers printed after the value loop are computed from: (closure / parameter names, attribute expressions)"""
+    D = v.dump
+    after = False
+    roots = []
+    for st in D.body:
+        if st is lp:
+            after = True
+            continue
+        for c in _prints_to(st, v.fvar, nested=True):
+            for a in c.args:
+                for p in _tmpl(a):
+                    if isinstance(p, Hole) and _clk_symbol(v, p.expr) is None:
+                        roots.append(p.expr)
+    names, attrs, seen, todo = set(), [], set(), list(roots)
+    while todo:
+        e = todo.pop()
+
+        def visit(x):
+            if isinstance(x, ast.Attribute):
+                attrs.append(x)
+                return
+            if isinstance(x, ast.Name) and isinstance(x.ctx, ast.Load):
+                local = [b for b in _bindings(D, x.id) if b[0] in ('assign', 'aug')]
+                if local and not _declared_outer(D, x.id):
+                    if x.id not in seen:
+                        seen.add(x.id)
+                        todo.extend(b[2] for b in local if isinstance(b[2], ast.AST))
+                elif not hasattr(builtins, x.id):
+                    names.add(x.id)
+                return
+            for ch in ast.iter_child_nodes(x):
+                visit(ch)
+        visit(e)
+    return names, attrs
+
+
+def _attr_writers(repo, attr):
+    """who may write: (file, qualified function) of every store to an attribute of that name under pymtl3/"""
+    out = []
+    for rel in repo.py_files('pymtl3'):
+        if attr not in repo.src(rel):
+            continue
+        mod = repo.mod(rel)
+        for n in ast.walk(mod.tree):
+            if isinstance(n, ast.Attribute) and n.attr == attr and isinstance(n.ctx, (ast.Store, ast.Del)):
+                out.append((rel, qualname(n) or '<module>'))
+    return out
+
+
 def _pairs_table(v, name, at):
     """the (signal, symbol) table, built by a comprehension or an append loop:
     returns (defining node, net table, symbol table, index var, filter conjuncts, pairing ok)"""
@@ -1045,13 +1095,34 @@ def rule_compress(repo):
     if t0 is None:
         r.bad(m, v.q, "header: #<t0> 1<clock symbol>", "the header does not start the clock with a rising edge at an initial time", v.mk.lineno)
         return _fin(r)
+    # what the time stamps are a function of: it must be a counter owned by this pass (a closure variable of make_vcd_func
+    # written only by the dump function itself), stepped once per dump call
+    leaves_n, leaves_a = _stamp_leaves(v, lp)
+    if leaves_a:
+        a0 = leaves_a[0]
+        writers = _attr_writers(repo, a0.attr)
+        foreign = [w for w in writers if not (w[0] == VCD and w[1].startswith(v.q))]
+        if foreign:
+            r.bad(m, dq, f"time stamp from {norm(a0)}", f"the #<time> stamps are computed from `{norm(a0)}`, a counter this pass does not own: "
+                  f"it is written by {', '.join(sorted({w[0].split('/')[-1] + ':' + w[1] for w in foreign}))} at moments unrelated to the dump "
+                  f"call (e.g. before the edge functions in one tick builder's sim_reset, after the dump in another), so `one stamp step per "
+                  f"dumped cycle` cannot hold: stamps repeat / run ahead and values appear in the wrong clock period", a0.lineno)
+            return _fin(r)
+        raise AnalysisError(f"{D.name}: time stamps depend on the attribute {norm(a0)} (attribute-held counters are outside the understood shapes)")
     cnt = None
     for c in cnts:
         ini = [b for b in _bindings(v.mk, c) if b[0] == 'assign' and isinstance(b[2], ast.Constant) and isinstance(b[2].value, int)]
-        if ini:
+        if ini and c in leaves_n:
             cnt, c0 = c, ini[0][2].value
     if cnt is None:
-        raise AnalysisError(f"{D.name}: no nonlocal cycle counter initialised to an integer constant in make_vcd_func")
+        r.bad(m, dq, f"time stamp from {sorted(leaves_n) or 'constants'}", "the #<time> stamps do not depend on a per-call counter owned by "
+              "the dump function (a closure variable of make_vcd_func, initialised to an integer, declared nonlocal): every dumped cycle "
+              "gets the same / an unrelated time", D.lineno)
+        return _fin(r)
+    others = [f.name for f in _nested_defs(v.mk) if f is not D and _declared_outer(f, cnt) and
+              any(b[0] in ('assign', 'aug') for b in _bindings(f, cnt))]
+    _chk(r, not others and len([b for b in _bindings(v.mk, cnt)]) == 1, m, dq, f"counter {cnt}: written only by {D.name}",
+         f"the dump counter is also written by {others or 'make_vcd_func (more than once)'}: it no longer counts dump calls", D)
     rises, falls, msg = [t0], [], None
     for n in range(c0, c0 + 5):
         events, nxt = _clock_run(v, lp, cnt, n)
@@ -1094,7 +1165,7 @@ def rule_compress(repo):
 
 
 def _fin(r):
-    r.require_floor({'R-C16-compress': 10, 'R-C16-header': 23, 'R-C16-textwave': 11}.get(r.rule, 1) if not r.findings else 0)
+    r.require_floor({'R-C16-compress': 11, 'R-C16-header': 24, 'R-C16-textwave': 11}.get(r.rule, 1) if not r.findings else 0)
     return r
 
 
@@ -1429,6 +1500,20 @@ def rule_header(repo):
     okL1 = len(_loop_guards(stmt_of(apps[0]))) == 1 and len(gA) == 1 and gA[0].polarity is True and \
         norm(gA[0].test) in (NEW, f'len({NEW}) > 0', f'len({NEW}) != 0', f'len({NEW})')
     _chk(r, okL1, m, q, f"{norm(apps[0])} under {[repr(g) for g in gA]}", "every non-empty trimmed net must be appended exactly once per net", apps[0])
+    fills = _collected(mk, NEW)
+    if not fills or any(c.src is None for c in fills):
+        raise AnalysisError(f"make_vcd_func: cannot see how {NEW} is filled")
+    tnames = {n.id for n in ast.walk(nl.target) if isinstance(n, ast.Name)}
+    for c in fills:
+        var = norm(c.var)
+        rebound = [n for n in (ast.walk(c.loop) if c.loop is not None else []) if isinstance(n, (ast.Assign, ast.AugAssign, ast.NamedExpr))
+                   and any(isinstance(t, ast.Name) and t.id == var and isinstance(t.ctx, ast.Store) for t in ast.walk(n))]
+        okm = isinstance(c.src, ast.Name) and c.src.id in tnames and norm(c.elt) == var and not rebound
+        what = norm(rebound[0]) if rebound else f"{NEW} <- {norm(c.elt)} for {var} in {norm(c.src)}"
+        _chk(r, okm, m, q, f"trimmed net members: {what}", "a trimmed net may only keep (a filtered subset of) the members of the value net "
+             "itself: a member mapped to another object (get_top_level_signal()/get_parent_object() of a slice or field) puts a WIDER signal "
+             "into the net, which then shares one symbol and one polled representative with signals it is only partly connected to "
+             "(wrong width / wrong value in the waveform)", rebound[0] if rebound else c.node)
     # M. one symbol per net, one generator
     sc = _collected(mk, syms)
     okM = len(sc) == 1 and sc[0].src is not None and sc[0].conj == [] and \
@@ -2293,6 +2378,12 @@ MUTANTS = [
     _m('var-name-from-field-names', VCD, "        signal_name = vcd_mangle_name( repr(signal)[ len(m_name)+1: ] )\n",
        "        signal_name = signal.get_field_name()\n        parent = signal.get_parent_object()\n        if parent is not m:\n"
        "          signal_name = f\"{parent.get_field_name()}.{signal_name}\"\n        signal_name = vcd_mangle_name( signal_name )\n", 'R-C16-header'),
+    _m2('stamp-from-simulator-cycle-count', 'R-C16-compress',
+        (VCD, "next_neg_edge = 100 * vcd_sim_ncycles + 50", "next_neg_edge = 100 * s._sim.simulated_cycles + 50"),
+        (VCD, "      vcd_sim_ncycles += 1\n", "")),
+    _m('net-members-widened-to-parent', VCD, "        if not isinstance(x, Const) and x.is_top_level_signal():\n          new_net.append( x )\n",
+       "        if isinstance(x, Const):\n          continue\n        x = x.get_top_level_signal()\n        if x not in new_net:\n          new_net.append( x )\n",
+       'R-C16-header'),
     _m('var-name-keeps-dot', VCD, "repr(signal)[ len(m_name)+1: ]", "repr(signal)[ len(m_name): ]", 'R-C16-header'),
     _m('no-upscope', VCD, '      print( f"{spaces}$upscope $end", file=vcd_file )\n', "", 'R-C16-header'),
     _m('clock-index-off-by-one', VCD, "vcd_clock_net_idx = len(trimmed_value_nets)\n\n      if new_net:",
@@ -2395,6 +2486,9 @@ EQUIV = [
        "    for net_idx, (writer, net) in enumerate( top.get_all_value_nets() ):\n      new_net = []"),
     _m('clock-index-helper-local', VCD, "            vcd_clock_net_idx = len(trimmed_value_nets)\n\n      if new_net:",
        "            pos_of_this_net = len(trimmed_value_nets)\n            vcd_clock_net_idx = pos_of_this_net\n\n      if new_net:"),
+    _m('net-members-by-comprehension', VCD, "      new_net = []\n      for x in net:\n        if not isinstance(x, Const) and x.is_top_level_signal():\n          new_net.append( x )\n          if repr(x)",
+       "      new_net = [ y for y in net if not isinstance(y, Const) and y.is_top_level_signal() ]\n      for x in new_net:\n        if True:\n          if repr(x)"),
+    _m('stamp-helper-local', VCD, "next_neg_edge = 100 * vcd_sim_ncycles + 50", "cyc = vcd_sim_ncycles\n      next_neg_edge = 100 * cyc + 50"),
     _m('dump-guard-flipped', PREP, "    if top.has_metadata( VcdGenerationPass.vcd_func ):\n      ret.append( top.get_metadata( VcdGenerationPass.vcd_func ) )\n",
        "    if not top.has_metadata( VcdGenerationPass.vcd_func ):\n      pass\n    else:\n      ret.append( top.get_metadata( VcdGenerationPass.vcd_func ) )\n"),
     _m('vcd-str-conditional-expression', BITS,
